@@ -330,7 +330,10 @@ struct Chg { id: u64, bid: bool, price: u32, amount: u32 }
 /// one side of a book, best level first
 type Levels = Vec<(u32, u32)>;
 
-struct Hist { sym: usize, id0: u64, base: Vec<(bool, u32, u32)>, changes: Vec<Chg>, groups: Vec<(usize, usize)>, chain: Vec<Upd> }
+struct Hist { sym: usize, id0: u64, base: Vec<(bool, u32, u32)>, changes: Vec<Chg>, groups: Vec<(usize, usize)>, chain: Vec<Upd>,
+    /// true: a depth update lists every change of its id range as it happened, so a price changed twice inside one update is listed TWICE (the
+    /// last entry is the venue's state as of the update's last id); false: one absolute amount per touched level
+    raw: bool }
 
 fn tenths(v: u32) -> String { format!("{}.{}", v / 10, v % 10) }
 fn dec(v: u32) -> Decimal { Decimal::new(v as i64, 1) }
@@ -340,7 +343,7 @@ fn show_t(l: &Levels) -> String { format!("[{}]", l.iter().map(|(p, a)| format!(
 impl Hist {
     /// `base` = the book as of id `id0`; every group of changes is one depth update
     fn build(sym: usize, venue: Venue, id0: u64, base: Vec<(bool, u32, u32)>, groups: &[Vec<(bool, u32, u32)>], mut hole: impl FnMut() -> u64) -> Hist {
-        let mut h = Hist { sym, id0, base, changes: vec![], groups: vec![], chain: vec![] };
+        let mut h = Hist { sym, id0, base, changes: vec![], groups: vec![], chain: vec![], raw: false };
         let (mut id, mut prev) = (id0, id0);
         for g in groups {
             let lo = h.changes.len();
@@ -381,7 +384,10 @@ impl Hist {
             groups.push(g);
         }
         let mut r2 = Rng(rng.next() | 1);
-        Hist::build(sym, venue, id0, base, &groups, move || if r2.chance(1, 3) { 1 + r2.below(3) } else { 0 })
+        let raw = rng.chance(1, 4);
+        let mut h = Hist::build(sym, venue, id0, base, &groups, move || if r2.chance(1, 3) { 1 + r2.below(3) } else { 0 });
+        h.raw = raw;
+        h
     }
 
     /// the exchange book after every change with id <= `id`: (bids best first, asks best first)
@@ -402,6 +408,7 @@ impl Hist {
         let (mut bids, mut asks): (Levels, Levels) = (vec![], vec![]);
         for c in &self.changes[lo..hi] {
             let side = if c.bid { &mut bids } else { &mut asks };
+            if self.raw { side.push((c.price, c.amount)); continue; }
             match side.iter_mut().find(|l| l.0 == c.price) { Some(l) => l.1 = c.amount, None => side.push((c.price, c.amount)) }
         }
         (bids, asks)
